@@ -44,7 +44,7 @@ from .core import Check, MachineryError, workdir
 
 PID = "C09"
 DEVS = ["lineno-double-offset", "lineno-stripped-newlines", "verbatim-quoted-reset", "percent-swallows-closer"]
-PROBE = "{% zzunknown %}"
+JOBS = [4]      # concurrent single-worker TLC runs for trace validation
 
 
 # ---------------------------------------------------------------- real code: observation
@@ -250,6 +250,26 @@ def trace_line(tid: int, case: Dict[str, Any], obs: Dict[str, Any]) -> Dict[str,
             "hastrail": bool(obs.get("hastrail")), "trail": obs.get("trail", [])}
 
 
+def validate_parallel(lines: List[Dict[str, Any]], tag: str, jobs: int) -> Dict[int, Dict[str, Any]]:
+    """Split `lines` (ids 1..n) over up to `jobs` concurrent single-worker TLC runs."""
+    from concurrent.futures import ThreadPoolExecutor
+    if len(lines) < 400 or jobs <= 1:
+        return validate_batch(lines, tag)
+    size = max(300, -(-len(lines) // jobs))
+    size = min(size, 4000)
+    chunks = [lines[k:k + size] for k in range(0, len(lines), size)]
+    out: Dict[int, Dict[str, Any]] = {}
+
+    def work(chunk):
+        local = [dict(ln, id=j + 1) for j, ln in enumerate(chunk)]
+        v = validate_batch(local, tag)
+        return {chunk[j]["id"]: v[j + 1] for j in range(len(chunk))}
+    with ThreadPoolExecutor(max_workers=jobs) as ex:
+        for part in ex.map(work, chunks):
+            out.update(part)
+    return out
+
+
 def validate_batch(lines: List[Dict[str, Any]], tag: str = "c09tr") -> Dict[int, Dict[str, Any]]:
     """One TLC run of Trace_C09 over `lines`; verdict per trace id."""
     if not lines:
@@ -261,7 +281,7 @@ def validate_batch(lines: List[Dict[str, Any]], tag: str = "c09tr") -> Dict[int,
     cfg.write_text("SPECIFICATION TrSpec\n")
     env_ = {"IN": str(f)}
     env_.update(_java_env(w))
-    r = tlc.require_ok(tlc.run("Trace_C09", str(cfg), env=env_, workers=1, heap="6g"), "Trace_C09")
+    r = tlc.require_ok(tlc.run("Trace_C09", str(cfg), env=env_, workers=1, heap="3g"), "Trace_C09")
     out: Dict[int, Dict[str, Any]] = {}
     for line in r.out.splitlines():
         m = re.match(r'"V\|(\d+)\|(\w+)\|([^|]*)\|([^|]*)\|([^|]*)"$', line.strip())
@@ -305,11 +325,15 @@ def apply_verdicts(chk: Check, cases: List[Dict[str, Any]], obss: List[Dict[str,
 
 
 # ---------------------------------------------------------------- spec -> code
-def export_cases(chk: Check, maxsegs: int, workers: int) -> List[Dict[str, Any]]:
+NATOMS = 25
+
+
+def export_cases(chk: Check, maxsegs: int, workers: int, atoms: Optional[List[int]] = None) -> List[Dict[str, Any]]:
     w = workdir("c09mc")
     out = w / "cases.ndjson"
     cfg = w / "mc.cfg"
-    cfg.write_text(f"SPECIFICATION MCSpec\nCONSTANTS\n  MaxSegs = {maxsegs}\n"
+    aset = "{" + ",".join(str(a) for a in (atoms or range(1, NATOMS + 1))) + "}"
+    cfg.write_text(f"SPECIFICATION MCSpec\nCONSTANTS\n  MaxSegs = {maxsegs}\n  AtomSet = {aset}\n"
                    "INVARIANT GeneratorWellFormed\nINVARIANT Partition\nINVARIANT StockEqual\n"
                    "INVARIANT OnlyQuotedClosersDiffer\nINVARIANT SingleLineSame\nINVARIANT HandoverRefines\n"
                    "INVARIANT HandoverOffset\nINVARIANT Export\n")
@@ -386,14 +410,8 @@ def replay_rows(chk: Check, rows: List[Dict[str, Any]], template_every: int = 1)
     chk.add("zone_cases", n_zone)
     lines = [trace_line(i + 1, c, o) for i, (c, o) in enumerate(zip(pend_cases, pend_obs))]
     counters: Dict[str, int] = {}
-    # batches keep the TLC heap small
-    B = 4000
-    for k in range(0, len(lines), B):
-        part = lines[k:k + B]
-        for j, ln in enumerate(part):
-            ln["id"] = j + 1
-        v = validate_batch(part, "c09cl")
-        apply_verdicts(chk, pend_cases[k:k + B], pend_obs[k:k + B], v, counters)
+    v = validate_parallel(lines, "c09cl", JOBS[0])
+    apply_verdicts(chk, pend_cases, pend_obs, v, counters)
     chk.add("mismatches_classified_by_tlc", len(lines) - n_zone)
     for k, n in counters.items():
         chk.add("replay_verdict_" + k, n)
@@ -663,7 +681,7 @@ def deep_traces(chk: Check, ntraces: int, nmin: int, nmax: int) -> None:
         segs = g.source(nmin, nmax)
         x = rnd.random()
         channel = "parse" if x < 0.6 else ("tmpl-debug" if x < 0.8 else "tmpl-nodebug")
-        ml = rnd.random() < 0.8
+        ml = rnd.random() < 0.85
         closed = not (segs and (segs[-1]["k"] == "tail" or (segs[-1]["k"] == "verbatim" and not segs[-1]["closed"])))
         probe = channel != "parse" and closed and rnd.random() < 0.7
         if probe:
@@ -691,11 +709,9 @@ def deep_traces(chk: Check, ntraces: int, nmin: int, nmax: int) -> None:
             chk.sample({"deep_trace": {"text": text, "ml": ml, "channel": channel, "err": obs["err"],
                                        "observed": [[t["t"], text_of(t["c"]), t["s"], t["e"], t["l"]] for t in obs["toks"]][:8]}}, limit=9)
     counters: Dict[str, int] = {}
-    B = 1500
-    for k in range(0, len(cases), B):
-        lines = [trace_line(j + 1, c, o) for j, (c, o) in enumerate(zip(cases[k:k + B], obss[k:k + B]))]
-        v = validate_batch(lines, "c09deep")
-        apply_verdicts(chk, cases[k:k + B], obss[k:k + B], v, counters)
+    lines = [trace_line(j + 1, c, o) for j, (c, o) in enumerate(zip(cases, obss))]
+    v = validate_parallel(lines, "c09deep", JOBS[0])
+    apply_verdicts(chk, cases, obss, v, counters)
     chk.add("traces_validated_against_impl", len(cases))
     chk.add("error_message_lines_checked", msg_checked)
     for k, n in counters.items():
@@ -762,3 +778,135 @@ def replay(path: str) -> int:
                                    "toks": [[t["t"], text_of(t["c"]), t["s"], t["e"], t["l"]] for t in obs["toks"]]}},
                      indent=1, ensure_ascii=False))
     return 0 if v["kind"] == "ACCEPT" else 1
+
+
+# ---------------------------------------------------------------- selftest
+def _mutant_module(replacements: List[Tuple[str, str]]):
+    """A copy of django_components.util.template_parser compiled in-process from its current
+    source with `replacements` applied (never written anywhere)."""
+    import inspect
+    import types
+    E = env()
+    src = inspect.getsource(E.tp)
+    for old, new in replacements:
+        if src.count(old) != 1:
+            raise MachineryError(f"probe inapplicable: pattern occurs {src.count(old)}x: {old[:50]!r}")
+        src = src.replace(old, new)
+    mod = types.ModuleType("vf_c09_mutant_template_parser")
+    mod.__dict__["__name__"] = "vf_c09_mutant_template_parser"
+    exec(compile(src, "<mutant template_parser>", "exec"), mod.__dict__)
+    return mod
+
+
+@contextmanager
+def _use_parser(mod):
+    E = env()
+    old_tp, old_dm = E.tp.parse_template, E.dm.parse_template
+    old_det = E.tp._detailed_tag_parser
+    E.tp.parse_template = mod.parse_template
+    E.dm.parse_template = mod.parse_template
+    try:
+        yield
+    finally:
+        E.tp.parse_template, E.dm.parse_template = old_tp, old_dm
+        E.tp._detailed_tag_parser = old_det
+
+
+def _src_probe(*replacements: Tuple[str, str]):
+    def cm():
+        return _use_parser(_mutant_module(list(replacements)))
+    return cm
+
+
+@contextmanager
+def _stock_lexer_when_not_debug():
+    """compile_nodelist uses our parser only with engine.debug, the stock Lexer otherwise."""
+    E = env()
+    T = E.tb.Template
+    old = T.compile_nodelist
+    from django.template.base import Lexer
+
+    real = E.dm.parse_template
+
+    def pick(source):
+        import sys
+        f = sys._getframe(1)
+        self = f.f_locals.get("self")
+        if self is not None and not self.engine.debug:
+            return Lexer(source).tokenize()
+        return real(source)
+    E.dm.parse_template = pick
+    try:
+        yield
+    finally:
+        E.dm.parse_template = real
+        T.compile_nodelist = old
+
+
+def _corrupted_traces_rejected() -> List[Tuple[str, bool]]:
+    """Corrupt one field of a good recorded trace; TLC must reject it with the right clause."""
+    text_ids = [2, 4, 8, 1]          # x\ny {{ v }} {% x y %} ab : no quoted tag, so no deviation can explain anything
+    rows = {tuple(r["ids"]): r for r in _rows_cache.get("rows", [])}
+    row = rows.get(tuple(text_ids[:3]))
+    if row is None:
+        raise MachineryError("selftest needs the exported rows")
+    base = {"ids": row["ids"], "chars": row["chars"], "ml": True}
+    good = observe_parse(text_of(row["chars"]), True)
+    out = []
+    muts = {"lineno": lambda t: t[-1].__setitem__("l", t[-1]["l"] + 1),
+            "span": lambda t: (t[1].__setitem__("e", t[1]["e"] - 1), t[2].__setitem__("s", t[2]["s"] - 1)),
+            "contents": lambda t: t[1].__setitem__("c", t[1]["c"] + [32]),
+            "type": lambda t: t[1].__setitem__("t", "COMMENT"),
+            "count": lambda t: t.pop()}
+    lines = [trace_line(1, base, good)]
+    names = ["(uncorrupted)"]
+    for name, f in muts.items():
+        o = json.loads(json.dumps(good))
+        f(o["toks"])
+        lines.append(trace_line(len(lines) + 1, base, o))
+        names.append(name)
+    v = validate_batch(lines, "c09cor")
+    out.append(("uncorrupted trace accepted", v[1]["kind"] == "ACCEPT"))
+    for i, name in enumerate(names[1:], start=2):
+        out.append((f"corrupt {name}: rejected with clause {name}", v[i]["kind"] == "REJECT" and name in v[i]["clauses"]))
+    return out
+
+
+def selftest(tier: str) -> int:
+    """In-process mutation probes (realistic bugs, never written to /repo) + corrupted traces."""
+    from .core import run_probes
+    env()
+
+    def body(chk: Check) -> None:
+        core(chk, maxsegs=2, ntraces=350, nmin=4, nmax=10, workers=4, machine=False)
+
+    probes = [
+        ("positions-not-shifted-after-handover",
+         _src_probe(("token.position = (token.position[0] + index_start, token.position[1] + index_start)",
+                     "token.position = (token.position[0], token.position[1])"))),
+        ("contents-not-stripped",
+         _src_probe(('result_str = "".join(result_content).strip()', 'result_str = "".join(result_content)'))),
+        ("escapes-in-strings-ignored",
+         _src_probe(("content = take_until_any((quote_char,), allow_escapes=True)",
+                     "content = take_until_any((quote_char,), allow_escapes=False)"))),
+        ("single-quotes-not-strings",
+         _src_probe(("QUOTE_CHARS = (\"'\", '\"')", "QUOTE_CHARS = ('\"',)"))),
+        ("lineno-never-offset",
+         _src_probe(("token.lineno += lineno_offset", "token.lineno += 0"))),
+        ("handover-only-for-double-quotes",
+         _src_probe(("(\"'\" in token.contents or '\"' in token.contents)", "('\"' in token.contents)"))),
+        ("resume-at-stock-token-end",
+         _src_probe(("index_start = fixed_token.position[1]", "index_start = broken_token.position[1]"))),
+        ("fixed-token-lineno-is-local",
+         _src_probe(("_detailed_tag_parser(text[broken_token_start:], broken_token.lineno, broken_token_start)",
+                     "_detailed_tag_parser(text[broken_token_start:], broken_token.lineno - lineno_offset, broken_token_start)"))),
+        ("end-position-excludes-closer",
+         _src_probe(("(start_index, index + start_index)", "(start_index, index + start_index - 2)"))),
+        ("stock-lexer-when-engine-not-debug", _stock_lexer_when_not_debug),
+    ]
+    rc = run_probes(PID, probes, body)
+    ok = True
+    for what, good in _corrupted_traces_rejected():
+        print(f"  trace {what}: {'ok' if good else 'FAILED'}")
+        ok = ok and good
+    return 0 if (rc == 0 and ok) else 1
